@@ -374,9 +374,17 @@ func (e *Env) importedPkg(name string) *types.Package {
 	}
 	// any loaded package with that name (for stubs/specs without a home package)
 	var found *types.Package
+	better := func(a, b string) bool {
+		// packages of the module first, then the shortest path
+		am, bm := strings.HasPrefix(a, modulePath), strings.HasPrefix(b, modulePath)
+		if am != bm {
+			return am
+		}
+		return len(a) < len(b)
+	}
 	for path, p := range e.ex.w.Pkgs {
 		if p.Types != nil && p.Types.Name() == name {
-			if found == nil || len(path) < len(found.Path()) {
+			if found == nil || better(path, found.Path()) {
 				found = p.Types
 			}
 		}
@@ -392,9 +400,7 @@ func (e *Env) index(x *ast.IndexExpr) Val {
 	case *types.Slice:
 		idx := e.asIdx(i)
 		k := c.keyElem(u.Elem())
-		info := c.heapSorts[k]
-		arr := Select(c.heapGet(e.st, k), sliceArr(v.T), ArraySort(c.idxSort(), info.elem))
-		return Val{T: Select(arr, e.ex.idxAdd(e.ex.sliceOff(v.T), idx), info.elem), Ty: u.Elem()}
+		return Val{T: c.elemAt(k, c.heapGet(e.st, k), v.T, idx), Ty: u.Elem()}
 	case *types.Array:
 		return Val{T: Select(v.T, e.asIdx(i), c.sortOf(u.Elem())), Ty: u.Elem()}
 	case *types.Map:
@@ -535,6 +541,9 @@ func (e *Env) call(x *ast.CallExpr) Val {
 		}
 		if isString(t) && isByteSlice(v.Ty) {
 			return Val{T: e.ex.stringOfBytes(e.st, v.T), Ty: t}
+		}
+		if _, isStruct := t.Underlying().(*types.Struct); isStruct {
+			return e.ex.coerce(v, t)
 		}
 		panic(e.fail("unsupported conversion to %s", t))
 	}
